@@ -45,6 +45,9 @@ def ticks(t: float) -> int:
     return round(x)
 
 
+VERBS = {"mixed": False}
+
+
 def port_run(arrivals, sequential):
     """Drive the real PortTransport.write_frame chain; returns per request (arrival, size chars, admission, write) in ticks, semaphore events, frames."""
     import importlib  # noqa: PLC0415
@@ -119,7 +122,8 @@ def port_run(arrivals, sequential):
         me = asyncio.current_task()
         rec[me] = {"arr": loop.time(), "n": n, "k": k}
         seq.append(("A", k, loop.time(), n))
-        frame = "RQ --- 18:000730 01:145038 --:------ 0000 %03d " % n + f"{k % 256:02X}" * n
+        verb = ("RQ", " W", " I", "RP", " W")[k % 5] if VERBS["mixed"] is True else " W" if VERBS["mixed"] == "W" else "RQ"      # regulation is blind to the verb
+        frame = verb + " --- 18:000730 01:145038 --:------ 0000 %03d " % n + f"{k % 256:02X}" * n
         rec[me]["frame"] = frame
         await t.write_frame(frame)
         rec[me]["done"] = loop.time()
@@ -386,7 +390,9 @@ def run(ctx: Ctx) -> None:
     for i in range(n_seq):
         pat = pats[i % len(pats)]
         arr = gen_arrivals(rng, pat, rng.randint(20, 60) if pat in ("idle-gaps", "burst", "steady-below") else rng.randint(80, 150) if pat.startswith("flood") else rng.randint(30, 120))
+        VERBS["mixed"] = (False, True, "W")[i % 3]          # requests only / writes, announcements and replies among them / writes only
         rows, events, out = port_run(arr, True)
+        VERBS["mixed"] = False
         waited = any(r["adm"] > r["arr"] for r in rows)
         ctx.case(("sequential", pat, tuple(arr)), waited, f"sequential:{pat}")
         rows.sort(key=lambda r: r["k"])
